@@ -9,7 +9,7 @@ EXES = ['release']
 ALPHABET = [0, 1, 2, r - 1]
 RULE = ('programs over registers A (= generator) and B (= identity) of one group with the instruction set {X=X+Y, X=X-Y, X=-X, X=X*s, '
         'X=s*X, normalize X, affine round trip X, encode/decode X in the raw / 0x04 / compressed format, X=Y} for X, Y in {A, B} and '
-        's in {0, 1, 2, r-1} (%d instructions); EXHAUSTIVE over all programs of depth <= 2 (quick) resp. <= 3 (thorough) in each group, '
+        's in {0, 1, 2, r-1} (%d instructions); EXHAUSTIVE over all programs of depth <= 2 (quick, plus a seeded sample of depth 3) resp. <= 3 (thorough, plus all depth-4 programs over a reduced 26-instruction set) in each group, '
         'except that programs which would encode the identity are pruned (to_slice of the identity panics by API contract; pruned count '
         'reported); plus random programs of length 10-80 with arbitrary scalars. The model tracks ONLY the '
         'discrete logarithm of each register. After the program, per register: the stored triple must denote [dlog]G (model affine map), '
@@ -40,6 +40,7 @@ def instructions():
 
 
 INS = instructions()
+INS4 = [i for i in INS if i[0] in ('add', 'sub', 'neg', 'mul', 'normalize', 'affine', 'rt_compressed', 'copy')]
 RULE = RULE % len(INS)
 
 
@@ -61,7 +62,17 @@ def cases(tier, seed):
         for dd in range(1, d + 1):
             for first in range(n):
                 out.append(('exh', which, dd, first))
-    nr = 240 if tier == 'quick' else 12000
+    if tier == 'thorough':
+        # depth 4 over the reduced instruction set INS4 (one scalar-multiplication form, one encoding format)
+        for which in (1, 2):
+            for a in range(len(INS4)):
+                for b in range(len(INS4)):
+                    out.append(('exh4', which, a, b))
+    else:
+        # a seeded sample of depth-3 programs on top of the exhaustive depth <= 2
+        for i in range(64):
+            out.append(('samp3', i))
+    nr = 240 if tier == 'quick' else 20000
     for i in range(nr):
         out.append(('rand', i))
     return out
@@ -69,6 +80,7 @@ def cases(tier, seed):
 
 def required(tier):
     req = ['exhaustive/g1/depth%d' % d for d in range(0, depth(tier) + 1)] + ['exhaustive/g2/depth%d' % d for d in range(0, depth(tier) + 1)]
+    req += ['exhaustive-reduced/g1/depth4', 'exhaustive-reduced/g2/depth4'] if tier == 'thorough' else ['sample/depth3']
     req += ['random/program', 'obs/denotes', 'obs/eq-fresh', 'obs/is_zero', 'obs/encoding', 'obs/pairing', 'obs/identity-register',
             'obs/non-normalised-register']
     return req
@@ -222,6 +234,18 @@ def run(ctx, spec):
         ctx.count('exhaustive-programs-enumerated', count)
         if d == depth(ctx.tier):
             ctx.sample('exhaustive', {'group': which, 'depth': d, 'first_instruction': list(INS[first]), 'programs_in_chunk': count})
+    elif kind == 'exh4':
+        _, which, a, b = spec
+        count = 0
+        for c in range(len(INS4)):
+            for d in range(len(INS4)):
+                count += 1
+                observe(ctx, which, [INS4[a], INS4[b], INS4[c], INS4[d]], 'exhaustive-reduced/g%d/depth4' % which, count % 64 == 0)
+        ctx.count('exhaustive-depth4-programs-enumerated', count)
+    elif kind == 'samp3':
+        for _ in range(40):
+            which = rng.choice([1, 2])
+            observe(ctx, which, [INS[rng.randrange(len(INS))] for _ in range(3)], 'sample/depth3', rng.random() < 0.1)
     else:
         which = rng.choice([1, 2])
         L = rng.randrange(10, 81)
